@@ -29,16 +29,24 @@ def fresh():
         shutil.copy("/verif/harness/Cargo.toml", f"{CF}/harness/Cargo.toml")
         sh(f"sed -i 's#\"/repo#\"{CF}/repo#' {CF}/harness/Cargo.toml")
 
-def run_check(prop, tier, extra_checks=()):
-    pkg = PKG[prop]
+EXTRA = {"C11": ["vp-mojang"]}  # sub-runs that ./check performs for a property besides its main monitor
+
+def run_one(pkg, prop, tier):
     rc, out = sh(f"CARGO_TARGET_DIR={CF}/htarget cargo build --offline --profile verif -p {pkg}", cwd=f"{CF}/harness")
     if rc != 0:
         return "BUILD-FAILED", [], out[-2000:]
     os.makedirs(f"{CF}/ev", exist_ok=True)
-    rc, out = sh(f"VERIF_ROOT={CF} {CF}/htarget/verif/{pkg} --prop {prop} --tier {tier} --seed 1 --evidence {CF}/ev/{prop}.json --replays {CF}/replays --known /verif/known_findings.json", timeout=3000)
+    rc, out = sh(f"VERIF_ROOT={CF} {CF}/htarget/verif/{pkg} --prop {prop} --tier {tier} --seed 1 --evidence {CF}/ev/{prop}-{pkg}.json --replays {CF}/replays --known /verif/known_findings.json", timeout=3000)
     sigs = [l.split("violated clause ")[1].split(":")[0] for l in out.splitlines() if "violated clause" in l]
     verdict = {0: "MISSED", 1: "FIRED", 2: "INCONCLUSIVE"}.get(rc, f"RC{rc}")
     return verdict, sigs, out[-1500:]
+
+def run_check(prop, tier, extra_checks=()):
+    verdict, sigs, tail = run_one(PKG[prop], prop, tier)
+    for pkg in EXTRA.get(prop, []):
+        if verdict == "MISSED":
+            verdict, sigs, tail = run_one(pkg, prop, tier)
+    return verdict, sigs, tail
 
 def main():
     ids = sys.argv[1:] or sorted(d for d in os.listdir("/tmp/seed-out") if re.match(r"C\d+-\d+$", d))
